@@ -27,7 +27,7 @@ func init() { register("C11", runC11) }
 const c11Watchdog = 20 * time.Second
 
 func runC11(r *kit.Run) {
-	n := int64(r.Scale(480, 120000))
+	n := int64(r.Scale(480, 360000))
 	for i := int64(0); i < n && !r.Stopped(); i++ {
 		if !r.Mine(i) {
 			continue
